@@ -63,7 +63,7 @@ pub fn std_next_ops(
 fn content_min_version(c: &str) -> u32 {
     match c {
         "b0" | "b1" | "b2" | "b7" | "t1" => 3,
-        "b3" | "b4" | "b6" | "t0" | "t2" => 4,
+        "b3" | "b4" | "b6" | "b8" | "t0" | "t2" => 4,
         "b5" => 6,
         _ => panic!("content"),
     }
